@@ -81,7 +81,27 @@ def tree_vs_reference(prog, expr, r):
     try: got = _norm_tree(PJ.canon(prog, r.fields[0].v, {}))
     except Unsupported: return None
     want = _norm_tree(PC.strip_prefix_names(ref[1]))
-    return None if got == want else f'parse tree {str(got)[:200]} is not the reference tree {str(want)[:200]}'
+    if got != want: return f'parse tree {str(got)[:200]} is not the reference tree {str(want)[:200]}'
+    # literal values (the tree comparison above only compares shapes): by token position
+    import json as _json
+    lits = {}
+    def walk(v):
+        v = MM.deref_all(v)
+        if isinstance(v, Agg):
+            if v.ty == 'Ast' and v.variant == 'Literal':
+                try: lits[PJ.ast_field(prog, v, 'offset').concrete()] = _json.dumps(PC.var_to_tagged(PJ.ast_field(prog, v, 'value')), sort_keys=True)
+                except Exception: lits[None] = '?'
+                return
+            if v.ty in ('Ast', 'KeyValuePair'):
+                for c in v.fields: walk(c.v)
+        elif isinstance(v, VecV):
+            for c in v.items: walk(c.v)
+    try: walk(r.fields[0].v)
+    except Unsupported: return None
+    wl = {p_: _json.dumps(PC.var_to_tagged(pl), sort_keys=True) for p_, k_, pl in ref[2] if k_ == 'Literal'}
+    if None in lits or any(not isinstance(p_, int) for p_ in wl): return None
+    if lits != wl: return f'literal values {lits} are not the reference values {wl}'
+    return None
 def job_expr_at(item, cap):
     expr, depth, A, deadline, origin = item
     prog = PROG; eng = Engine(prog); eng.deadline = deadline; S = Summary(); XP.init_decls(prog)
